@@ -44,8 +44,17 @@ func (er *ErrorReader) Read(b []byte) (n int, err error) {
 	return n, err
 }
 
+// Drain discards whatever remains of the current reader. A failure while
+// discarding is recorded in Err like any other failed read, and so is a
+// length-limited region that ends before its declared length was consumed.
 func (er *ErrorReader) Drain() {
-	_, _ = io.ReadAll(er.Reader)
+	_, err := io.Copy(io.Discard, er.Reader)
+	if err != nil && er.Err == nil {
+		er.Err = err
+	}
+	if lr, ok := er.Reader.(*io.LimitedReader); ok && lr.N > 0 && er.Err == nil {
+		er.Err = io.ErrUnexpectedEOF
+	}
 }
 
 // An ErrorWriter wraps an io.Writer with a reusable buffer for small allocations
